@@ -77,6 +77,26 @@ func jobsFor(id, tier string) []*Job {
 	}
 	_ = wmk
 	switch id {
+	case "C16":
+		reads := 4
+		if thorough {
+			reads = 6
+		}
+		var cp [][]int
+		for _, ch := range []int{0, 1} {
+			for _, mt := range []int{1024, 6000} {
+				for _, dl := range []int{0, 1} {
+					r := reads
+					if ch == 1 && mt == 6000 && !thorough {
+						r = 3
+					}
+					cp = append(cp, []int{ch, mt, dl, r})
+				}
+			}
+		}
+		sc := mk("scan", "zzverifw.H_C16_scan", cp)
+		sc.Overrides = map[string]string{"github.com/macrat/simplexer.shiftPos": "github.com/macrat/simplexer.vShiftPos", "(*github.com/macrat/simplexer.Lexer).makeError": "github.com/macrat/simplexer.vMakeError", "?(*github.com/macrat/simplexer.Lexer).trimRightNullStrings": "github.com/macrat/simplexer.vTrim"}
+		add(split(sc)...)
 	case "C02":
 		lexOv := map[string]string{"(*github.com/Syuparn/pangaea/parser.Lexer).Lex": "parser.vLex"}
 		var ip [][]int
@@ -290,6 +310,8 @@ func assumptionsFor(id string) []string {
 		"harness oracles written from the property statement and docs (DESIGN.md Appendix B)",
 	}
 	switch id {
+	case "C16":
+		return append(common, "the lexer buffer is a LenStr: its content is abstracted away and its length is a symbolic term (len, +, slicing, string(buf[:n]) are length arithmetic)", "token types are contract stubs: the true token at the current position has symbolic length T; a greedy class (identifier, comment, blank-line run) matches min(T, buffered) bytes, a delimited class (string, raw string) matches only when completely buffered; earlier and later token types do not match", "reader stub: returns a symbolic count c with 1 <= c <= min(len(p), remaining) (chunked) or exactly that minimum (full reader), then io.EOF", "stubs in the engine only: shiftPos (position bookkeeping) and makeError (wording of the error message); strings.LastIndex on the abstract buffer answers not-found", "one Scan from an arbitrary state satisfying the invariant buf = prefix of the unread input: an inductive step, so the length of the file is unbounded")
 	case "C02":
 		return append(common, "in the engine (*Lexer).Lex is replaced by a token feed (token ids from the grammar's own constants); natively the same words are rendered to source text and lexed by the real regex lexer — every natively replayed path cross-checks the token model", "oracle: the documented table of docs/reference/operators.md (not the %left lines): the expression as written and the expression with the implied parentheses inserted must print the same AST")
 	case "C19":
@@ -333,6 +355,14 @@ func assumptionsFor(id string) []string {
 func boundsFor(id, tier string, jobs []*Job) map[string]interface{} {
 	b := map[string]interface{}{"tier": tier}
 	switch id {
+	case "C16":
+		b["state"] = "buffered bytes 0..4096, unread input 0..8192, token length 1..1024 and 1..6000 (each symbolic)"
+		b["reader"] = "full reader and arbitrary short reads"
+		if tier == "thorough" {
+			b["reads_per_scan"] = "at most 6"
+		} else {
+			b["reads_per_scan"] = "at most 4 (3 for short reads with tokens up to 6000 bytes)"
+		}
 	case "C02":
 		b["infix"] = "all ordered pairs and all ordered triples of the 23 infix operators (operator tokens are solver choices)"
 		if tier == "thorough" {
@@ -453,6 +483,8 @@ func boundsFor(id, tier string, jobs []*Job) map[string]interface{} {
 
 func outsideFor(id string) []string {
 	switch id {
+	case "C16":
+		return []string{"which grammar positions accept a line break (grammar + RET regex; only 'a long run is one token' is covered)", "the regular expressions themselves (token types are contract stubs)", "tokens whose recognition depends on more than the token itself being buffered (look-ahead beyond the token)", "source containing NUL bytes", "position / line bookkeeping"}
 	case "C02":
 		return []string{"spelling -> token (the regex lexer; C17)", "sequences of more than three infix operators", "nested if/else without parentheses", "multi-line chains, literals of functions/objects as operands", "AST printing itself (both sides are printed by the same printer)"}
 	case "C19":
